@@ -387,7 +387,11 @@ def stream_errors(chk: core.Check, handles: dict[str, fleet.Handle]) -> None:
     u1_seen: list[str] = []
     for cfg, h in handles.items():
         inner = h.inner.storage  # type: ignore[attr-defined]
-        scen = error_scenarios(inner, "err%d_%s_" % (chk.seed, re.sub(r"\W", "", cfg)))
+        try:
+            scen = error_scenarios(inner, "err%d_%s_" % (chk.seed, re.sub(r"\W", "", cfg)))
+        except Exception as e:  # noqa: BLE001 - the BACKEND refused a plain, valid set-up call: a broken tie, not an infrastructure failure
+            chk.broke("correspondence", {"stream": "grpc-errors", "backend": cfg, "why": "set-up of the error scenarios raised %s: %s on the inner storage" % (type(e).__name__, str(e)[:200])})
+            continue
         asks, rows = [], []
         for method, what, thunk in scen:
             a = _err_of(lambda: thunk(inner))
